@@ -2,8 +2,8 @@
 # test certificates for the C17 lane (own CA; leaf for localhost with SAN; wrong-name leaf; self-signed leaf), as PKCS#12 identities
 set -e
 D=/verif/.cache/certs; mkdir -p $D; cd $D
-[ -f done2 ] && exit 0
-rm -f done
+[ -f done3 ] && exit 0
+rm -f done done2
 openssl req -x509 -newkey rsa:2048 -nodes -keyout ca.key -out ca.pem -days 3650 -subj "/CN=l3h test CA" >/dev/null 2>&1
 mk() { # name CN SAN
   openssl req -newkey rsa:2048 -nodes -keyout $1.key -out $1.csr -subj "/CN=$2" >/dev/null 2>&1
@@ -13,7 +13,8 @@ mk() { # name CN SAN
 }
 mk good localhost "DNS:localhost,IP:127.0.0.1,IP:::1"
 mk wrongname other.example "DNS:other.example"
+mk dnsonly localhost "DNS:localhost"
 openssl req -x509 -newkey rsa:2048 -nodes -keyout self.key -out self.pem -days 3650 -subj "/CN=localhost" -addext "subjectAltName=DNS:localhost,IP:127.0.0.1,IP:::1" >/dev/null 2>&1
 openssl pkcs12 -export -inkey self.key -in self.pem -out self.p12 -passout pass:l3h >/dev/null 2>&1
 openssl x509 -in ca.pem -outform DER -out ca.der
-touch done2
+touch done3
